@@ -1,6 +1,109 @@
-(* Runner for property C10: wire arguments -> model -> wire result. Filled in by the C10 model. *)
+(* Runner for property C10: wire arguments -> model (Env/Lifecycle.v) -> wire result.
+     c10 <fx> <base> ( op ... )   ->  ( ( x<outcome> nsigs nreal ) ... )
+   <fx> bit 0 = fix9, bit 1 = fix10 (0 = the repository as shipped, 3 = with the proposed
+   repairs).  Operation codes as in harness/c10.go.  The hash is instantiated with an
+   injective encoding of the content (sha256 is treated as collision-free by the tie only). *)
 From Coq Require Import ZArith List String Bool.
-From Verif Require Import Base.Wire.
+From Verif Require Import Base.Wire Env.Header Env.Sig Env.Lifecycle.
 Import ListNotations.
+Open Scope Z_scope.
 
-Definition run_c10 (args : list V) : list V := [verr "not-implemented"].
+Definition hash_impl (c : content) : str :=
+  bs "h" ++ int_bytes (cid c) ++ bs "." ++ int_bytes (ver c) ++ bs "."
+  ++ bs (if code c then "c" else "n") ++ bs (if dirty c then "d" else "k").
+
+Definition base_doc (b : Z) : option content :=
+  if b =? 0 then Some (mkC 0 0 true false true true)
+  (* document 1 is document 0 without its code: setting the code makes them the same document *)
+  else if b =? 1 then Some (mkC 0 0 false false true true)
+  else if b =? 2 then Some (mkC 2 0 true false true false)
+  else if b =? 3 then Some (mkC 3 0 true false false false)
+  else None.
+
+Definition dec_fx (z : Z) : fixes :=
+  mkFx (Z.testbit z 0) (Z.testbit z 1).
+
+Definition dec_op (v : V) : option op :=
+  let '(c, a) := match v with
+                 | VI z => (z, [])
+                 | VL (VI z :: r) => (z, r)
+                 | _ => (-1, [])
+                 end in
+  let s := fun i => vs_ (nth i a (VS [])) in
+  let z := fun i => vz (nth i a (VI 0)) in
+  let has := fun n => Nat.leb n (List.length a) in
+  if c =? 0 then Some Calculate
+  else if c =? 1 then Some EditDoc
+  else if c =? 2 then (if has 1%nat then Some (Sign (z 0%nat)) else None)
+  else if c =? 3 then Some Unsign
+  else if c =? 4 then Some (AddStamp (s 0%nat) (s 1%nat))
+  else if c =? 5 then Some (AddLink (s 0%nat) (s 1%nat))
+  else if c =? 6 then Some (AddTag (s 0%nat))
+  else if c =? 7 then Some (AddMeta (s 0%nat) (s 1%nat))
+  else if c =? 8 then Some (SetNotes (s 0%nat))
+  else if c =? 9 then Some Validate
+  else if c =? 10 then Some (Verify (map vz a))
+  else if c =? 11 then Some Reparse
+  else if c =? 12 then Some ToggleCode
+  else if c =? 13 then (if has 1%nat then option_map Insert (base_doc (z 0%nat)) else None)
+  else if c =? 20 then Some ReparseWithEmptySig
+  else if c =? 21 then Some ReparseWithNullSig
+  else if c =? 22 then Some ReparseNilHead
+  else if c =? 23 then Some ReparseNilDig
+  else if c =? 24 then Some ReparseNullLink
+  else if c =? 25 then Some ReparseNullStamp
+  else if c =? 26 then
+    (let u := s 0%nat in
+     if is_empty u || eqb_bytes u (bs "u0") || eqb_bytes u (bs "u1") then Some (SetUuid u) else None)
+  else if c =? 27 then Some (SetDig (s 0%nat) (s 1%nat))
+  else if c =? 28 then Some (RmStamp (s 0%nat))
+  else if c =? 29 then Some (RawStamp (s 0%nat) (s 1%nat))
+  else if c =? 30 then Some (RmLink (s 0%nat))
+  else if c =? 31 then Some (RawLink (s 0%nat) (s 1%nat))
+  else if c =? 32 then Some (RmTag (s 0%nat))
+  else if c =? 33 then Some (RmMeta (s 0%nat))
+  else if c =? 34 then (if has 1%nat then Some (RawSign (z 0%nat)) else None)
+  else if c =? 35 then Some SwapSigs
+  else if c =? 36 then Some DupSig
+  else if c =? 37 then Some DropSig
+  else None.
+
+Definition errkey_name (k : errkey) : string :=
+  match k with
+  | EValidation => "validation" | EDigest => "digest" | ECalculation => "calculation"
+  | ENoDocument => "no-document" | EInternal => "internal" | ESignature => "signature"
+  | EOther => "other" | EUnmarshal => "unmarshal" | EMarshal => "marshal" | ESkip => "skip"
+  end.
+Definition outcome_name (x : outcome) : string :=
+  match x with OK => "ok" | ERR k => errkey_name k | PANIC => "panic" end.
+Definition voutcome (x : outcome) : V := VS (bs (outcome_name x)).
+
+(* an undecodable operation is reported as skip and leaves the state alone *)
+Definition step_wire (fx : fixes) (e : env) (v : V) : env * outcome :=
+  match dec_op v with
+  | Some o => step hash_impl fx e o
+  | None => (e, ERR ESkip)
+  end.
+
+Definition start_env (fx : fixes) (base : Z) : env :=
+  match base_doc base with
+  | Some d => fst (step hash_impl fx new_envelope (Insert d))
+  | None => new_envelope
+  end.
+
+Fixpoint run_wire (fx : fixes) (e : env) (ops : list V) : list V :=
+  match ops with
+  | [] => []
+  | v :: r =>
+    let '(e', x) := step_wire fx e v in
+    VL [voutcome x; VN (List.length (sigs e')); VN (List.length (filter is_real (sigs e')))] :: run_wire fx e' r
+  end.
+
+Definition final_env (fx : fixes) (e : env) (ops : list V) : env :=
+  fold_left (fun s v => fst (step_wire fx s v)) ops e.
+
+Definition run_c10 (args : list V) : list V :=
+  match args with
+  | [VI f; VI b; VL ops] => [VL (run_wire (dec_fx f) (start_env (dec_fx f) b) ops)]
+  | _ => [verr "badargs"]
+  end.
